@@ -785,6 +785,11 @@ def run(ctx, model_ok=True):
     res.quirks = dict(quirks)
     cases = vlib.load_corpus(PROP) + targeted() + gen_cases(ctx)
     execute(ctx, cases, model_ok, res, quirks)
+    done = set()
+    for v in res.violations:            # hand out minimised replays (first report of each signature)
+        if v["signature"] not in done and len(done) < 12:
+            done.add(v["signature"])
+            v["case"] = shrink(v["case"], v["signature"])
     res.rule = ("seeded random histories (2..16 events + a closing look) over a pool of %d objects and %d classes, ids = the daemon's name, %d explicit names, "
                 "generated ids (also not-yet-generated ones), truthy non-string and empty ids; events register (force/weak flags), unregister by object / id / None, "
                 "uriFor, proxyFor, a client call to an id, a remote method returning a pool object (followed by a call through the proxy that arrives), "
